@@ -79,6 +79,24 @@ def unit_struct():
                 ctx.record(f"{nm}-event-re-encodes-to-nothing", isinstance(r, bytes) and r == b"", site="binary/unmarshal.py:to_bytes", detail=repr(r))
             except PyExc as e:
                 ctx.record(f"{nm}-event-re-encodes-to-nothing", False, site=e.site or "", detail=repr(e.exc))
+        # info events wrapping every kind of error the decoder reports (with typed, plain-integer and absent offending values)
+        import tpmstream.common.error as E
+        from tpmstream.common.constraints import SizeConstraint, ValueConstraint
+        from tpmstream.spec.common.values import ValidValues
+
+        sc = SizeConstraint()
+        sc.constraint_path, sc.size_max, sc.size_already = path, 4, 2
+        vc = ValueConstraint(constraint_path=path, tpm_type=UINT16, valid_values=ValidValues(range(0, 4)))
+        errs = {"value-error-typed": E.ValueConstraintViolatedError(vc, UINT16(0x42)), "value-error-int": E.ValueConstraintViolatedError(vc, 0x4242), "value-error-none": E.ValueConstraintViolatedError(vc, None),
+                "exceeded": E.SizeConstraintExceededError(sc, violator_path=path, exceeded_by=1), "anticipated": E.AnticipatedSizeConstraintExceededError(sc, violator_path=path, violator_value=9, exceeded_by=1),
+                "subceeded": E.SizeConstraintSubceededError(sc), "depleted": E.InputStreamBytesDepletedError(command_code=None), "superfluous": E.InputStreamSuperfluousBytesError(b"\x01\x02", command_code=None)}
+        for en, e in errs.items():
+            for cn, cls in (("warning", WarningEvent), ("error-event", ErrorEvent)):
+                try:
+                    r = run_sync(I.call(U.to_bytes, (cls(error=e),), {}))
+                    ctx.record(f"{cn}-about-{en}-re-encodes-to-nothing", isinstance(r, bytes) and r == b"", site="binary/unmarshal.py:to_bytes", detail=repr(r))
+                except PyExc as ex:
+                    ctx.record(f"{cn}-about-{en}-re-encodes-to-nothing", False, site=ex.site or "", detail=repr(ex.exc))
         # unmarshal: one chunk per event, in order (3 abstract primitive events with symbolic values around structural ones)
         vals = [ctx.fresh_int(f"v{i}", 0, 65535) for i in range(3)]
         evs = [MarshalEvent(path, Command, ...)]
